@@ -73,7 +73,8 @@ class Session:
     def group(self, ops, tag="g"):
         """ops: [(3x3 rotation, 3-vector translation)] with numbers / normal forms"""
         o = self.ev.new_obj("mysg")
-        o.attrs.update(nsymop=Rat.const(len(ops)), nuniq=Rat.const(len(ops)),
+        o.attrs.update(name="SGNAME", no=Rat.atom("sg.no"), crystal_system="<crystal system>", Laue="<Laue class>", cell_choice="standard",
+                       nsymop=Rat.const(len(ops)), nuniq=Rat.const(len(ops)),
                        rot=Arr([[[rc(x) for x in row] for row in R] for R, _t in ops]),
                        trans=Arr([[rc(x) for x in t] for _R, t in ops]))
         return o
@@ -315,6 +316,12 @@ def run(ctx):
     ctx.check(okd, "C15:dispatch:multiplicity",
               "the group is not obtained as sg.sg(sgname=sgname, cell_choice=cell_choice) / sg.sg(sgno=sgno, cell_choice=cell_choice) "
               "(ValueError when neither is given): %s" % why, where)
+    # end to end: what multiplicity forwards (its own defaults included), read by the real constructor, is the table the user names
+    def run_caller(user):
+        s_ = Session(mod, by_args, pos_bounds)
+        s_.call(pos_atoms, **user)
+        return dict(s_.sg_calls[0]) if s_.sg_calls else None
+    sgobject.dispatch_rule(ctx, "C15", "multiplicity", run_caller, where)
     hist = []
     for i, j in itertools.permutations(range(len(requests)), 2):
         s = Session(mod, by_args, pos_bounds)
